@@ -74,6 +74,8 @@ def cases(tier, seed):
     for i0 in range(0, len(items), 10):
         out.append({"k": "misc", "i0": i0, "i1": min(len(items), i0 + 10), "tier": tier})
     out.append({"k": "lead", "twins": True})
+    out.append({"k": "lead", "magnitudes": True})
+    out.append({"k": "misc", "magnitudes": True})
     out.append({"k": "misc", "twins": True})
     return out
 
@@ -87,7 +89,9 @@ def prekey(el, names, graded, reverse):
 
 
 def run_case(case, R):
-    if case.get("twins"):
+    if case.get("magnitudes"):
+        items = [(tuple(sp["n"]), tuple(sp["s"]), i, sp["d"], sp) for i, sp in enumerate(space.magnitude_specs())]
+    elif case.get("twins"):
         items = [(tuple(sp["n"]), tuple(sp["s"]), i, sp["d"], sp) for i, sp in enumerate(space.twin_sequence())]
     else:
         items = list(arrays(case.get("tier", "quick")))[case["i0"]:case["i1"]]
